@@ -111,7 +111,7 @@ def default_qset(d, numofq):
     return np.array(out)
 
 
-def one_case(ctx, rng, wd, force_N=None):
+def one_case(ctx, rng, wd, force_N=None, force_T=None):
     from PyMatterSim.dynamic.dynamics import Dynamics, LogDynamics
     from PyMatterSim.neighbors.calculate_neighbors import Nnearests
     d = int(rng.choice([2, 3]))
@@ -122,6 +122,9 @@ def one_case(ctx, rng, wd, force_N=None):
     if force_N:
         N, T = force_N, int(rng.choice([3, 5]))          # a trajectory far beyond the usual size (block-wise evaluation boundaries)
         ctx.count("trajectories_over_1000_particles")
+    if force_T:
+        N, T = int(rng.integers(3, 7)), force_T           # far more frames than usual: more than 128 / 256 time origins per lag
+        ctx.count("trajectories_over_128_frames")
     kind = str(rng.choice(["ballistic", "diffusive", "arrested", "mixed"]))
     L = rng.uniform(4.0, 9.0, size=d)
     if rng.random() < 0.3:
@@ -129,6 +132,13 @@ def one_case(ctx, rng, wd, force_N=None):
     if force_N:
         L = L * (force_N / 30.0) ** (1.0 / d)
     XU = gen_traj(rng, d, N, T, L, kind)
+    if rng.random() < 0.2:
+        # runaway particles: unwrapped displacements of more than a box length (legitimate for unwrapped coordinates; the wrapped-only
+        # mode is switched off below when a displacement exceeds half a box)
+        drift = np.zeros((N, d))
+        drift[rng.integers(0, N, size=max(1, N // 4))] = rng.normal(size=d) * L.max() * 1.3 / max(T - 1, 1)
+        XU = XU + np.arange(T)[:, None, None] * drift[None]
+        ctx.count("displacements_beyond_half_a_box")
     lo = rng.uniform(-2, 2, size=d) if rng.random() < 0.5 else np.zeros(d)
     XU = XU + lo
     X = lo + np.mod(XU - lo, L)
@@ -224,7 +234,10 @@ def one_case(ctx, rng, wd, force_N=None):
         if r == 3:
             c.setflags(write=False)
         return c
-    ok, res = ctx.call(key, lambda: klass(**kw).relaxation(qconst=qconst, condition=cond_rep(), outputfile=outfile), data=info)
+    carg = cond_rep()
+    ok, res = ctx.call(key, lambda: klass(**kw).relaxation(qconst=qconst, condition=carg, outputfile=outfile), data=info)
+    if ok and cond is not None:
+        ctx.check("selection_untouched", np.array_equal(np.asarray(carg), cond), key + "/selection_modified", "the caller's selection array was modified", info)
     ctx.case(cls.rsplit("/sel", 1)[0], XU, ts, types, a, qconst, nontrivial=T >= 3 and N >= 4,
              sample={"class": cls, "T": T, "N": N, "d": d, "timesteps": ts, "dt": dt, "a": a, "qconst": qconst})
     if lists:
@@ -352,8 +365,11 @@ def one_case(ctx, rng, wd, force_N=None):
                 except ZeroDivisionError:
                     pass
                 ctx.count("sq4_object_history")
-            return obj.sq4(t=tchar, qrange=qrange, condition=None if cond is None else cond.copy(), outputfile=s4file)
+            return obj.sq4(t=tchar, qrange=qrange, condition=c4, outputfile=s4file)
+        c4 = None if cond is None else cond.copy()
         ok4, s4 = ctx.call("Dynamics.sq4", s4call, data=info)
+        if ok4 and cond is not None:
+            ctx.check("selection_untouched", np.array_equal(c4, cond), "Dynamics.sq4/selection_modified", "the caller's selection array was modified", info)
         if ok4:
             good = list(s4.columns) == ["q", "Sq"] and len(s4) == len(uq)
             if ctx.check("sq4", good, "Dynamics.sq4/layout", lambda: f"columns {list(s4.columns)} rows {len(s4)} expected {len(uq)}", info):
@@ -373,6 +389,7 @@ def run(ctx):
     if ctx.shard == 0 or ctx.thorough:
         for _ in range(2):
             one_case(ctx, ctx.rng(), wd, force_N=int(ctx.rng().choice([1100, 2050, 3000])))
+        one_case(ctx, ctx.rng(), wd, force_T=int(ctx.rng().choice([131, 150, 259])))
     n = ctx.n(900, 800)
     for _ in range(n):
         one_case(ctx, ctx.rng(), wd)
